@@ -271,6 +271,19 @@ func vtC14Amount(r *rand.Rand, style string, cap int64) int64 {
 			return -int64(r.Intn(5))
 		}
 		return int64(r.Intn(3000))
+	case "sharesmax":
+		// around the cpu.shares maximum clamp: 262144 shares = 256000 milli-CPU; single amounts and
+		// halves/thirds whose sums land in 255900 .. 262300
+		band := 255900 + int64(r.Intn(6400))
+		switch r.Intn(4) {
+		case 0:
+			return band
+		case 1:
+			return band / 2
+		case 2:
+			return band / 3
+		}
+		return int64(r.Intn(3))
 	default:
 		switch r.Intn(6) {
 		case 0:
@@ -285,7 +298,7 @@ func vtC14Amount(r *rand.Rand, style string, cap int64) int64 {
 }
 
 func vtC14Gen(r *rand.Rand, i int) (string, []int64) {
-	style := []string{"plain", "plain", "plain", "tiny", "huge", "negative", "sparse", "sparse"}[r.Intn(8)]
+	style := []string{"plain", "plain", "plain", "tiny", "huge", "negative", "sparse", "sparse", "sharesmax"}[r.Intn(9)]
 	mode := int64(r.Intn(3))
 	qos := int64(1)
 	if r.Intn(4) == 0 {
